@@ -634,7 +634,8 @@ func checkMain(id, tier string) int {
 		fmt.Println("EVIDENCE-WRITE-FAILED:", err)
 		return 2
 	}
-	if machineryFailed {
+	if machineryFailed && exit == 0 {
+		// (natively confirmed violations take precedence over a failed vacuity witness)
 		return 2
 	}
 	if n := ev.inconclusiveTotal(); n > 0 {
